@@ -379,7 +379,8 @@ fn gen_smx(rng: &mut Rng) -> Image {
         b.push(rng.byte());
     }
     b.extend_from_slice(&[0; 4]);
-    let name_len = rng.usize(0, 31);
+    // up to the full field width (a 32-byte name has no terminator on disk)
+    let name_len = if rng.chance(1, 6) { 32 } else { rng.usize(0, 31) };
     let mut name: Vec<u8> = (0..name_len)
         .map(|_| *rng.pick(b"abcdefghijklmnopqrstuvwxyzABCDEFGHIJKLMNOPQRSTUVWXYZ0123456789_-()"))
         .collect();
@@ -708,16 +709,31 @@ impl Prop for C17 {
                     note: notes.join("; "),
                 }
             },
-            _ => FileSc {
-                kind,
-                image: if rng.chance(1, 4) {
-                    let cut = rng.usize(0, len.saturating_sub(1));
-                    img.bytes[..cut].to_vec()
-                } else {
-                    img.bytes
-                },
-                op: FOp::RealFile,
-                note: String::new(),
+            _ => {
+                // real files: valid, truncated, or with hostile count fields
+                let mut note = String::new();
+                let image = match rng.below(4) {
+                    0 => {
+                        let cut = rng.usize(0, len.saturating_sub(1));
+                        note = format!("truncated to {}", cut);
+                        img.bytes[..cut].to_vec()
+                    },
+                    1 => {
+                        let mut b = img.bytes;
+                        let off = *rng.pick(&img.counts);
+                        let nv: i32 = *rng.pick(&[-1, i32::MAX, i32::MIN, 0x0400_0000, 65_536, 53_687_092]);
+                        b[off..off + 4].copy_from_slice(&nv.to_le_bytes());
+                        note = format!("count at {} := {}", off, nv);
+                        b
+                    },
+                    _ => img.bytes,
+                };
+                FileSc {
+                    kind,
+                    image,
+                    op: FOp::RealFile,
+                    note,
+                }
             },
         }
     }
@@ -989,6 +1005,9 @@ impl Prop for C17 {
             FOp::RealFile => {
                 sig.u64(6);
                 rep.probe("real_file");
+                if sc.note.contains("count at") {
+                    rep.probe("real_file_hostile_count");
+                }
                 let r = guarded(|| real_file(sc));
                 match r {
                     Err(m) => rep.violations.push(v("file.panic", format!("{} from_file / from_pathbuf panicked: {}", tag, m))),
@@ -1107,6 +1126,7 @@ impl Prop for C17 {
             "hostile_rejected",
             "eio_rejected",
             "real_file",
+            "real_file_hostile_count",
         ]
     }
 }
